@@ -32,7 +32,9 @@ META = {
                   'map-iteration order, a second Reset changes nothing, re-mocking after Reset works (builder keys and method keys through fresh or kept struct '
                   'mockers), operations on f never change bytes or behaviour class of g != f, and the behaviour class is determined by the entry bytes in every '
                   'reachable state: pristine => orig, jump to callback k => cb k, jump to stub n => stub n served by the live When of a not cancelled mocker '
-                  '(ownership invariant); the jump bytes dispatch to the named funcval by C15.amd64_entry.',
+                  '(ownership invariant); the jump bytes dispatch to the named funcval by C15.amd64_entry. For a generic target the entry jump leads to an installed '
+                  'dictionary-dropping adapter (patch.go adaptToShapeFunc) that forwards to the callback/stub: modelled (adapter table), proved '
+                  '(MockedWith / Denotes), and observed by calling — callbacks report whether they received exactly the caller\'s argument, a GC runs before every call of a patched generic.',
     'level_note': 'Trusted: Lean kernel (propext, Classical.choice, Quot.sound only); the hand transcription Model/Patch.lean, validated on every '
                   'run by executing it next to the real code on generated histories (whole-image diff + behaviour after each step); tools/gen for '
                   'the emitter. Measured, not modelled: function sizes, first bytes, funcval addresses and the outcome of the placeholder '
@@ -110,6 +112,7 @@ CORPUS = [  # hand-written scenarios that always run first (1 builder unless the
     '1 | a 0 x 7 1 ; a 0 x 8 2 ; r 0 x 9 3 ; c 0 x 8 ; x 0 ; a 0 x 7 0 ; x 0',
     '2 | a 0 m 7 1 ; a 1 m 17 2 ; a 0 m 17 3 ; r 1 m 7 4 ; x 1 ; x 0',
     '2 | a 0 f 5 1 ; a 0 f 18 2 ; r 1 f 18 3 ; r 1 f 5 4 ; c 0 f 18 ; x 1 ; x 0',
+    '2 | w 0 f 5 1 ; w 1 f 18 2 ; a 0 f 5 3 ; k 1 f 18 ; A 1 f 18 0 ; C 1 f 18 ; R 1 f 18 5 ; x 0 ; x 1',   # generic targets: adapter, exact arguments
     '1 | a 0 f 0 1 ; ab 0 f 0 ; ab 0 f 3 ; r 0 f 3 1 ; ab 0 f 3 ; x 0',
     '2 | Y 0 ; a 0 f 1 1 ; Y 1 ; a 1 e 4 2 ; a 1 e 0 3 ; x 0 ; x 1',
     '2 | a 0 e 4 1 ; a 0 p 19 2 ; a 1 p 19 3 ; a 1 e 4 0 ; c 0 p 19 ; x 1 ; x 0',     # same name, two packages: Pkg(path).ExportFunc
@@ -122,7 +125,7 @@ CORPUS = [  # hand-written scenarios that always run first (1 builder unless the
     '1 | K 0 ; sk 0 m 8 ; A 0 m 8 1 ; C 0 m 8 ; A 0 m 8 2 ; c 0 m 8 ; x 0',
     '1 | K 0 ; K 0 ; sw 0 m 8 1 3 ; a 0 u 9 1 ; sc 0 u 9 ; sa 0 u 9 2 ; x 0',
 ]
-MALFORMED = ['1 | a 0 q 0 1', '1 | a 0 m 0 1', '1 | a 3 f 0 1', '1 | z 0', '1 | a 0 f 0 9', '1 | a 0 f 0 1 3', '1 | a 0 f 0', '1 | w 0 u 9 1', '1 | w 0 f 7 1', '1 | w 0 f 5 1', '1 | A 0 f 0 1', '1 | k 0 f 0 ; C 0 e 0', '1 | k 0 v 0', '1 | k 0 f 0 1', '1 | sa 0 m 7 1', '1 | K 0 ; sa 0 f 0 1', '1 | K 0 1', '1 | K 0 ; sa 0 e 7 1', '1 | a 0 e 10 1', '1 | a 0 m 12 1', '1 | a 0 v 12 1 3', '1 | a 0 f 20 1', '1 | a 0 e 19 1', '1 | a 0 p 4 1', '1 | a 0 v 10 1', '1 | a 0 e 17 1', '1 | a 0 x 12 1', '1 | ab 0 e 0', '1 | Y 0 1', '1 | w 0 f 18 1', '1 | a 0 f 18 1 0', '1 | K 0 ; sa 0 m 17 1']
+MALFORMED = ['1 | a 0 q 0 1', '1 | a 0 m 0 1', '1 | a 3 f 0 1', '1 | z 0', '1 | a 0 f 0 9', '1 | a 0 f 0 1 3', '1 | a 0 f 0', '1 | w 0 u 9 1', '1 | w 0 f 7 1', '1 | A 0 f 0 1', '1 | k 0 f 0 ; C 0 e 0', '1 | k 0 v 0', '1 | k 0 f 0 1', '1 | sa 0 m 7 1', '1 | K 0 ; sa 0 f 0 1', '1 | K 0 1', '1 | K 0 ; sa 0 e 7 1', '1 | a 0 e 10 1', '1 | a 0 m 12 1', '1 | a 0 v 12 1 3', '1 | a 0 f 20 1', '1 | a 0 e 19 1', '1 | a 0 p 4 1', '1 | a 0 v 10 1', '1 | a 0 e 17 1', '1 | a 0 x 12 1', '1 | ab 0 e 0', '1 | Y 0 1', '1 | a 0 f 18 1 0', '1 | K 0 ; sa 0 m 17 1']
 
 
 def gen_history(rng, maxlen=25, allow_orphan=False):
@@ -207,7 +210,7 @@ def gen_history(rng, maxlen=25, allow_orphan=False):
             steps.append(f'{pre}a {b} {via} {t} {rng.below(4)}{o}')
         elif r < 90:
             steps.append(f'{pre}r {b} {via} {t} {rng.below(50)}{o}')
-        elif (t in METHODS and via != 'm') or t in GENERICS:
+        elif t in METHODS and via != 'm':
             steps.append(f'{pre}r {b} {via} {t} {rng.below(50)}{o}')   # When(arg) needs the Struct(..).Method mocker on methods; the generic body receives a dictionary first (argument fidelity is C01)
         else:
             steps.append(f'{pre}w {b} {via} {t} {rng.below(50)}{o}')
@@ -427,7 +430,9 @@ def oracle(hist, obs, fixok, known=None):
             t, k = int(st[3]), st[4]
             o = sticky.get((st[1], st[2], t))
             want_ok = o is None or fixok[t][o] == '1'
-            if want_ok and (res != 'ok' or beh[t] != 'c' + k or dset.get(f'f{t}') != f'jmp(k{k})'):
+            # a generic target is entered through a heap adapter that drops the dictionary word and forwards the arguments
+            wantjmp = 'jmp(heap)' if t in GENERICS else f'jmp(k{k})'
+            if want_ok and (res != 'ok' or beh[t] != 'c' + k or dset.get(f'f{t}') != wantjmp):
                 return f'step {i} `{" ".join(st)}`: (re-)mock did not take effect: {res} {dset.get(f"f{t}")} {beh[t]}'
     end = parts[len(steps)] if len(parts) > len(steps) else ''
     if not end.startswith('end d='):
